@@ -817,7 +817,7 @@ def b_int(E, args, kw):
     if isinstance(v, (SChr, SStr)):
         chars = E.str_chars(v)
         b = 10 if base is None else base
-        if chars is None or b != 10:
+        if chars is None or not (2 <= b <= 10):
             raise Unsupported("int() of symbolic string")
         if len(chars) == 0:
             raise PyExc("ValueError", "invalid literal for int(): ''")
@@ -825,14 +825,14 @@ def b_int(E, args, kw):
         for ch in chars:
             code = E.char_code(ch)
             if isinstance(code, int):
-                if not (48 <= code <= 57):
+                if not (48 <= code <= 47 + b):
                     raise PyExc("ValueError", "invalid literal for int()")
                 d = code - 48
             else:
-                if not E.decide(z3.And(code >= 48, code <= 57)):
+                if not E.decide(z3.And(code >= 48, code <= 47 + b)):
                     raise PyExc("ValueError", "invalid literal for int()")
-                d = SInt(code - 48, None, 0, 9)
-            total = num_binop(E, "+", num_binop(E, "*", total, 10, "i", "i"), d, "i", "i")
+                d = SInt(code - 48, None, 0, b - 1)
+            total = num_binop(E, "+", num_binop(E, "*", total, b, "i", "i"), d, "i", "i")
         return total
     if isinstance(v, (tuple, SList, SDict)):
         raise PyExc("TypeError", "int() argument must be a string or a number")
@@ -1935,6 +1935,8 @@ def make_math():
         "fabs": Builtin("math.fabs", b_abs),
         "ceil": Builtin("math.ceil", math_ceil),
         "hypot": Builtin("math.hypot", math_hypot),
+        # isqrt(n) == floor(sqrt(n)) is an identity over the reals (negative n: ValueError, via sqrt's domain check)
+        "isqrt": Builtin("math.isqrt", lambda E, a, k: b_int(E, [np_sqrt(E, [E.force(a[0])], {})], {})),
         "sqrt": Builtin("math.sqrt", np_sqrt),
         "atan2": Builtin("math.atan2", math_atan2),
         "degrees": Builtin("math.degrees", np_degrees),
